@@ -24,26 +24,26 @@ open Scrapli Driver
 /-- one request line in, one answer line out; the first token selects the property handler -/
 def handle (line : String) : String :=
   match (line.splitOn " ") with
-  | "c01" :: rest => handleC01 rest
-  | "c02" :: rest => handleC02 rest
-  | "c03" :: rest => handleC03 rest
-  | "c04" :: rest => handleC04 rest
-  | "c05" :: rest => handleC05 rest
-  | "c06" :: rest => handleC06 rest
-  | "c07" :: rest => handleC07 rest
-  | "c08" :: rest => handleC08 rest
-  | "c09" :: rest => handleC09 rest
-  | "c10" :: rest => handleC10 rest
-  | "c11" :: rest => handleC11 rest
-  | "c12" :: rest => handleC12 rest
-  | "c13" :: rest => handleC13 rest
-  | "c14" :: rest => handleC14 rest
-  | "c15" :: rest => handleC15 rest
-  | "c16" :: rest => handleC16 rest
-  | "c17" :: rest => handleC17 rest
-  | "c18" :: rest => handleC18 rest
-  | "c19" :: rest => handleC19 rest
-  | "c20" :: rest => handleC20 rest
+  | "c01" :: rest => Driver.C01.handleC01 rest
+  | "c02" :: rest => Driver.C02.handleC02 rest
+  | "c03" :: rest => Driver.C03.handleC03 rest
+  | "c04" :: rest => Driver.C04.handleC04 rest
+  | "c05" :: rest => Driver.C05.handleC05 rest
+  | "c06" :: rest => Driver.C06.handleC06 rest
+  | "c07" :: rest => Driver.C07.handleC07 rest
+  | "c08" :: rest => Driver.C08.handleC08 rest
+  | "c09" :: rest => Driver.C09.handleC09 rest
+  | "c10" :: rest => Driver.C10.handleC10 rest
+  | "c11" :: rest => Driver.C11.handleC11 rest
+  | "c12" :: rest => Driver.C12.handleC12 rest
+  | "c13" :: rest => Driver.C13.handleC13 rest
+  | "c14" :: rest => Driver.C14.handleC14 rest
+  | "c15" :: rest => Driver.C15.handleC15 rest
+  | "c16" :: rest => Driver.C16.handleC16 rest
+  | "c17" :: rest => Driver.C17.handleC17 rest
+  | "c18" :: rest => Driver.C18.handleC18 rest
+  | "c19" :: rest => Driver.C19.handleC19 rest
+  | "c20" :: rest => Driver.C20.handleC20 rest
   | "rx" :: rest => handleRx rest
   | ["echo", h] => match fromHex h with
     | some b => toHex b
